@@ -3,7 +3,6 @@
    published constants (typed in here, independently of the source), and the clauses of the
    property hold for the specifications. *)
 From Coq Require Import Reals List Bool ZArith Lra Lia Psatz.
-From Interval Require Import Tactic.
 From PyrexLib Require Import RealPrims PartPrims.
 From PyrexGen Require Import Gen_particle.
 From PyrexModel Require Import Secondaries.
